@@ -9,6 +9,7 @@
 import Buidl.Proofs.AddressDispatch
 import Buidl.Proofs.Bech32Switch
 import Buidl.Proofs.Bech32Sound
+import Buidl.Proofs.ToAddressSound
 namespace Buidl.Props.C09
 open Buidl Buidl.Base58 Buidl.Bech32 Buidl.Address
 
@@ -480,6 +481,48 @@ theorem address_roundtrip_p2tr (hash256 : Bytes → Bytes) (net : Str) (hnet : K
   obtain ⟨s, h1, h2, h3, _⟩ := segwit_template hash256 net hnet (.p2tr h) 1 h (p2tr_program h (by omega))
     (Or.inr (Or.inr ⟨rfl, hl, rfl⟩))
   exact ⟨s, h1, h2, h3⟩
+
+/-- `TxOut.to_address` on a segwit address is sound: whatever it accepts decodes (checksum kind
+    included) to one of the three (version, length) pairs the library has a script type for, and
+    the script is that of THAT version: v0/20 → P2WPKH, v0/32 → P2WSH, v1/32 → P2TR -/
+theorem toAddress_segwit_sound (hash256 : Bytes → Bytes) (net : Str) (rest : Str) (spk : Spk)
+    (h : toAddress segPrefixesRepaired hash256 (hrpOf net ++ '1' :: rest) = some spk) :
+    ∃ n v prog, decodeBech32 (hrpOf net ++ '1' :: rest) = some (n, v, prog) ∧
+      ((v = 0 ∧ prog.length = 20 ∧ spk = .p2wpkh prog) ∨ (v = 0 ∧ prog.length = 32 ∧ spk = .p2wsh prog) ∨
+       (v = 1 ∧ prog.length = 32 ∧ spk = .p2tr prog)) :=
+  Address.toAddress_segwit_sound hash256 net rest spk h
+
+/-- witness versions 2..16 (any version other than 0 and 1) and every other program length are
+    refused by `TxOut.to_address`: several addresses never collapse onto one script -/
+theorem toAddress_segwit_refuses (hash256 : Bytes → Bytes) (net : Str) (rest : Str) (n : Str) (v : Nat) (prog : Bytes)
+    (hd : decodeBech32 (hrpOf net ++ '1' :: rest) = some (n, v, prog))
+    (hbad : ¬ ((v = 0 ∧ (prog.length = 20 ∨ prog.length = 32)) ∨ (v = 1 ∧ prog.length = 32))) :
+    toAddress segPrefixesRepaired hash256 (hrpOf net ++ '1' :: rest) = none :=
+  Address.toAddress_segwit_refuses hash256 net rest n v prog hd hbad
+
+/-- `address_to_script_pubkey` only looks at data parts that start with `q` (version 0) or `p`
+    (version 1): an address whose version character is any other character is refused -/
+theorem addressToScriptPubkey_other_version (hash256 : Bytes → Bytes) (net : Str) (c : Char) (rest : Str)
+    (hq : c ≠ 'q') (hp : c ≠ 'p') :
+    addressToScriptPubkey hash256 (hrpOf net ++ '1' :: c :: rest) = none := by
+  have hq' : ¬ 'q' = c := fun e => hq e.symm
+  have hp' : ¬ 'p' = c := fun e => hp e.symm
+  rcases hrpOf_cases net with e | e | e <;> rw [e]
+  · have t1 : (['b', 'c'] ++ '1' :: c :: rest).take 1 = ['b'] := rfl
+    have t4 : (['b', 'c'] ++ '1' :: c :: rest).take 4 = ['b', 'c', '1', c] := rfl
+    have t6 : (['b', 'c'] ++ '1' :: c :: rest).take 6 = 'b' :: 'c' :: '1' :: c :: rest.take 2 := rfl
+    simp [addressToScriptPubkey, Gen.a2sW0, Gen.a2sW1, Gen.a2sW2, Gen.a2sW3, Gen.a2sW4, Gen.a2sW5, t1, t4, t6, inStrs,
+      Gen.a2sP2pkhFirst, Gen.a2sP2shFirst, Gen.a2sV0Prefixes, Gen.a2sV1Prefixes, Gen.a2sV0Regtest, Gen.a2sV1Regtest, hq, hp, hq', hp']
+  · have t1 : (['t', 'b'] ++ '1' :: c :: rest).take 1 = ['t'] := rfl
+    have t4 : (['t', 'b'] ++ '1' :: c :: rest).take 4 = ['t', 'b', '1', c] := rfl
+    have t6 : (['t', 'b'] ++ '1' :: c :: rest).take 6 = 't' :: 'b' :: '1' :: c :: rest.take 2 := rfl
+    simp [addressToScriptPubkey, Gen.a2sW0, Gen.a2sW1, Gen.a2sW2, Gen.a2sW3, Gen.a2sW4, Gen.a2sW5, t1, t4, t6, inStrs,
+      Gen.a2sP2pkhFirst, Gen.a2sP2shFirst, Gen.a2sV0Prefixes, Gen.a2sV1Prefixes, Gen.a2sV0Regtest, Gen.a2sV1Regtest, hq, hp, hq', hp']
+  · have t1 : (['b', 'c', 'r', 't'] ++ '1' :: c :: rest).take 1 = ['b'] := rfl
+    have t4 : (['b', 'c', 'r', 't'] ++ '1' :: c :: rest).take 4 = ['b', 'c', 'r', 't'] := rfl
+    have t6 : (['b', 'c', 'r', 't'] ++ '1' :: c :: rest).take 6 = ['b', 'c', 'r', 't', '1', c] := rfl
+    simp [addressToScriptPubkey, Gen.a2sW0, Gen.a2sW1, Gen.a2sW2, Gen.a2sW3, Gen.a2sW4, Gen.a2sW5, t1, t4, t6, inStrs,
+      Gen.a2sP2pkhFirst, Gen.a2sP2shFirst, Gen.a2sV0Prefixes, Gen.a2sV1Prefixes, Gen.a2sV0Regtest, Gen.a2sV1Regtest, hq, hp, hq', hp']
 
 /-- F09a, what holds for the source as it is today: `TxOut.to_address` inverts `.address` for
     the three segwit templates on every network except regtest.
